@@ -1,0 +1,6 @@
+//go:build verif
+
+package podeni
+
+// VerifPodNumaHints exposes podNumaHints to the verification harness.
+func VerifPodNumaHints(anno map[string]string) []int { return podNumaHints(anno) }
